@@ -82,6 +82,61 @@ def run_concurrent(run, name, n):
         shutil.rmtree(tmp, ignore_errors=True)
 
 
+def refresh_verdict(c, o):
+    f, p = c.split(), o.split(' ')
+    ne, nr = int(f[3]), int(f[4])
+    if len(p) != 4 or p[0] != '1':
+        return 'no clean Destroy: ' + o[:100], 0
+    ids = [x for x in p[1].split(',') if x]
+    want = [str(i) for i in range(ne + nr)]
+    sep = 'sep' in f[0]
+    if f[2] == 'Block':
+        exp = sorted(want + ([str(i) for i in range(ne, ne + nr)] if sep else []), key=int)
+        if sorted(ids, key=int) != exp:
+            return 'Block policy: %d of %d submitted items delivered' % (len(set(ids)), len(want)), 0
+        return 'ok', 0
+    cnt = {}
+    for x in ids:
+        cnt[x] = cnt.get(x, 0) + 1
+    if any(x not in want for x in ids) or any(n > (2 if sep and int(x) >= ne else 1) for x, n in cnt.items()):
+        return 'an item delivered twice or never submitted', 0
+    return 'ok', 1 if len(set(ids)) < len(want) else 0
+
+
+def refresh_built(run, name):
+    """async loggers as a configuration builds them (AsyncLogger plugin, RollingFile logger with async=true), every policy spelled out,
+    the smallest buffer, a burst that overflows it: Block delivers everything in order, the discarding policies a duplicate-free part of it"""
+    import shutil
+    rng = run.rng
+    cases = []
+    for kind in ('asyncfile', 'rollingasync', 'rollingsepasync'):
+        for pol in asyncgen.POLICIES:
+            cases.append('%s %d %s %d %d 0 0 100' % (kind, rng.randint(0, 1), pol, rng.choice([3000, 6000]), rng.choice([0, 50])))
+    tmp = common.scratch_dir('c04k')
+    try:
+        common.write_lines(tmp + '/c', cases)
+        rc, li = common.run_impl('c05k', tmp + '/c', tmp + '/i', timeout=1800)
+        io = common.read_lines(tmp + '/i')
+        run.obligations += 1
+        if rc != 0 or len(io) != len(cases):
+            run.add_violation('harness-error', 'c05k (from C04) rc=%s lines=%d/%d %s' % (rc, len(io), len(cases), li[-1500:]), [li[-2000:]], no_input=True)
+            return
+        bad, overflowed = [], 0
+        for c, o in zip(cases, io):
+            v, ov = refresh_verdict(c, o)
+            overflowed += ov
+            if v != 'ok':
+                bad.append((c, o, v))
+        for c, o, v in bad[:3]:
+            run.add_violation('oracle:' + name, v, ['family c05k', 'case ' + c, 'impl ' + o[:1500], 'verdict ' + v])
+        if not bad:
+            run.discharged += 1
+        run.stream(name, len(cases), overflowed + 3, False, 'Refresh-built async loggers (AsyncLogger plugin with a file appender, RollingFile logger async with/without .wf), bufferSize=100, each policy configured explicitly, '
+                   'one producer bursting 3000-6000 events + raw writes; oracle: Block delivers every item (in the files after Destroy), the discarding policies deliver a duplicate-free subset')
+    finally:
+        shutil.rmtree(tmp, ignore_errors=True)
+
+
 def check(run):
     rng = run.rng
     quick = run.tier == 'quick'
@@ -102,10 +157,27 @@ def check(run):
         'inside a gated appender; start occupancies 0,1,cap-1,cap,cap+1,random; after EVERY operation: delivered ids in order, discard counter, buffer length, '
         'whether the call returned; non-trivial = at least one discard or a blocked call', keep_empty=False, timeout=3000)
     run_concurrent(run, 'c04/concurrent', 40 if quick else 1200)
+    refresh_built(run, 'c04/refresh-built')
     import c06
     c06.stalled(run, 12 if quick else 300, name='c04/stalled-conservation')
     return 'see streams'
 
 
 def replay(run, path):
+    lines = common.read_lines(path)
+    if any(l.startswith('family c05k') for l in lines):
+        import shutil
+        cases = [l[5:] for l in lines if l.startswith('case ')]
+        tmp = common.scratch_dir('c04r')
+        common.write_lines(tmp + '/c', cases)
+        common.run_impl('c05k', tmp + '/c', tmp + '/i')
+        rc = 0
+        for c, o in zip(cases, common.read_lines(tmp + '/i')):
+            v, _ = refresh_verdict(c, o)
+            print(c, '\n impl:', o[:300], '\n verdict:', v)
+            if v != 'ok':
+                rc = 1
+                print('VIOLATION property=C04 replay=' + path)
+        shutil.rmtree(tmp, ignore_errors=True)
+        return rc
     return common.simple_replay('C04', 'c04', path, keep_empty=False)
